@@ -56,7 +56,7 @@ CHECKS = {
          "Layer (b): C07_roundtrip / C07_roundtrip_all (read (write m) = Some (norm m) for EVERY well-formed molecule / molecule list, Molecule and "
          "Structure writers), C07_preserved (name, order, elements, non-empty labels, coordinates, charges, bonds, expressible bond types), "
          "C07_text_fixed_point (second cycle writes the same text), C07_ensemble / C07_ensemble_count_order. The model is compared with molli on "
-         "600 (thorough 6000) generated objects per run: written lines and read-back fields must coincide inside Coq; an independent oracle judges the property.",
+         "600 (thorough 6000) generated objects per run: written lines and read-back fields must coincide inside Coq; an independent oracle judges the property; plus 120 (thorough 1000) write -> edit through the public API -> write again cases, also starting from objects read from text; C07_codec_stateless: writer and reader depend on the current state only, for every token and every BondType.",
     note="Trusted: Coq kernel + vm_compute; table emitter and correspondence harness (harness/c07.py); CPython's correctly rounded float formatting/float() "
          "(floats enter the model as their exact decimal rounding). Outside the model: UNITY_*_ATTR sections, non-'%f' number spellings, numpy assignment. "
          "Known findings excluded by explicit hypotheses with refuted-lemmas: '-0.000' charge loses its sign on the second write; a 0-conformer ensemble writes nothing. "
@@ -72,6 +72,24 @@ CHECKS = {
   text="Props/C01.v: for every well-formed molecule/ensemble, decode(msgpack(encode o)) = Some(mnorm_obj o) for the v2 encodings (C01_mol_v2/_ens_v2; = Some o when attribute values are msgpack-stable, *_exact), = reset_obj_v1(mnorm_obj o) for the legacy v1 encodings (C01_mol_v1/_ens_v1), and conformer count, arrays, atom count, bond endpoints never change (C01_nothing_else). Generic theorem roundtrip_of_wiring (all wirings accepted by wiring_ok, all objects) is proved once; the four position->slot wirings, dtypes and constructor defaults are observed on every run by running io.py on objects whose slots hold unique values. ~1150 (quick) / ~6400 (thorough) generated and bundled objects are stored in writing() and read by a fresh handle in reading(), v2 and v1, compared with the model inside Coq and field by field by the oracle.",
   note="Trusted: Coq kernel+vm_compute; T-emitter and harness (harness/c01.py); numpy single rounding; msgpack/msgpack_numpy/numpy packing modelled (mnorm, dtype-tagged arrays), not verified; storage layer via public API only (C02-C04). Atom identity modelled as position; mult=0, non-dict attrib, ndarray attributes (oracle only) outside wf. Known findings: list-as-tuple, double-as-single-float (attrib, f_order), double-beyond-single-range-refused. No axioms.",
   ref="7/C01"),
+ "C10": dict(technique="Coq proof (induction over the reader state machines) + differential correspondence evaluated by the kernel (tie H), vocabulary tables (tie T)",
+  text="Props/C10.v: for every input every returned molecule has the atom/bond counts of its own header (C10_counts_xyz/_mol2); for every well-formed xyz or mol2 text and every k the first k lines give an exception or a prefix of the molecules (C10_truncate_lines_*); deleting or duplicating any one line gives an exception (xyz) / an exception or exactly the same molecules (mol2) (C10_delete_line_*, C10_dup_line_*); a cut of the last xyz record at a token boundary gives an exception or the undamaged result, at any byte it changes at most the last token (C10_last_token_only, finding 36); readers are total, one line per step. ~6100 damaged texts (quick) are run through the real readers under a wall-clock limit and compared with the model inside Coq.",
+  note="Trusted: Coq kernel+vm_compute; harness/c10.py (damage operators mirrored in Coq, canonicalisation); CPython split/strip/int/float (modelled for ASCII in Common/ParseStr.v); mol2 atom/bond type vocabularies are model parameters tabulated from the running code (C07). Hypotheses: name/comment line not an integer list nor a TRIPOS record. No axioms. 2 fix commits (9b0bd71, aafb0fa).",
+  ref="7/C10"),
+ "C08": dict(technique="Coq proof (character-level round trip; unit law over R) + regenerated tables (T) + fail-closed AST extraction of the scale(...) argument (S) + writer/reader correspondence (H)",
+  text="Props/C08.v: write_xyz then load_xyz returns the same counts, order, elements and micro-unit coordinates, frame by frame for ensembles (C08_roundtrip, C08_frames); for every member of the regenerated DistanceUnit table and the scale expression extracted from yield_from_xyz / yield_from_mol2, a coordinate expressed in that unit is read back in Angstrom (C08_units_xyz/_mol2, over R); table values agree with the physical constants (C08_unit_values). Writer text compared character by character with the model inside Coq; every unit x reader x API judged by an oracle using physical constants.",
+  note="Trusted: kernel; T/S emitters in harness/c08.py; CPython correctly-rounded format/float; CartesianGeometry.scale multiplies (observed, not proved). Reals axioms (sig_forall_dec, functional_extensionality_dep) only in the two unit theorems. Known: dummy atype lost (finding 32). 2 fix commits (0ee3f4e, 0716efc).",
+  ref="7/C08"),
+ "C14": dict(
+ technique="Coq proof (invariant by case analysis over every constructor branch and operation + induction over all histories; lens laws; interleaving theorem by induction with an iterator invariant) on a hand model, tied to /repo by differential correspondence evaluated by the kernel (tie H) + Python oracle",
+ text="Props/C14.v: Rect (coords/atomic_charges/weights describe the same number of conformers and n_atoms entries per row) is established by every __init__ branch (C14_rect_constructors), preserved by all 32 operations (C14_rect_step) hence by every history from nothing (C14_rect_history); ens[k] is a lens onto row k for coords and charges (C14_lens_coords/_charges/_put_get) and every write through a conformer changes only that row of that ensemble (C14_conf_write_frame); every conformer of a rectangular ensemble is a full view, dumps are defined and the io round trip is the identity (C14_view_writable); a loop visits 0..nc-1 in order, nested loops the product (C14_for_loop), and under ANY interleaving of non-resizing operations each iterator yields c..nc-1 once each in order (C14_iter_interleaved, C14_iter_once); the former shared-cursor protocol is refuted for nc>=2 (C14_shared_cursor_refuted); slices name existing conformers (C14_slice_valid). Each run drives 1500 (thorough 12000) random histories through the real ConformerEnsemble/Conformer (constructors, append/extend, transforms, setters, view writes, interleaved iterators, nested loops, slices, dumps, io) with exact integer/NaN tokens, observes every ensemble after every call, and Coq replays them (check_case, vm_compute; C14_check_case_sound).",
+ note="Trusted: Coq kernel+vm_compute; harness/c14.py (driver, token<->double, parsing dumps back, literal emission); CPython/numpy. Modelled not verified: np.append=list append, row views, full-shape [:] assignment, exact integer arithmetic in doubles <2^40, NaN propagation, '>f4' exact <2^24, msgpack identity. Outside the alphabet: numpy broadcasting of size-1 axes in setters, extend([]), advancing an iterator after its ensemble was resized, structure edits through views (C05), aliasing/pickle (C06), text/binary formats (C07/C08/C01). Known findings (Unspec in the model): append onto ConformerEnsemble(); Molecule with explicit n_conformers=0; legacy ConformerEnsemble.serialize/deserialize raise. No axioms.",
+ ref="7/C14"),
+ "C06": dict(
+  technique="Coq proof (heap/alias model; frame rule by invariant over all primitive-write histories; copy soundness for all heaps) + regenerated alias table (tie T) decided by the kernel + differential correspondence via vm_compute (tie H)",
+  text="Props/C06.v: every copy route (copy-constructors, evolve, pickle, deepcopy, concatenate, join, ensemble-from-list, ensemble copy; 70 regenerated (class, route) rows) yields an object equal to its source on all fields both classes have, with parents re-pointed, sharing no mutable container (C06_table_ok by kernel computation on the regenerated table; C06_copy_faithful_independent / C06_row_sound for every heap and source); disjoint reach implies the frame rule: any history of mutations through one side leaves the other side's observation unchanged (C06_mutation_frame, C06_disjoint_reach_frame, C06_copy_then_any_history, C06_menu_edits_confined). 1664 (thorough 9984) (class, route) x side x mutation cases compare the whole heap and both observations before/after inside Coq; an oracle checks faithfulness field by field and aliasing with `is` / np.shares_memory.",
+  note="Trusted: Coq kernel+vm_compute; harness/c06.py (alias classification, heap re-reading by identity). Lone Atom/Bond routes by table and oracle only; derived molecules (concatenate/join/ensemble-from-list) via a synthetic union object; values inside attrib dicts not followed; pickle/copy/attrs/numpy copying executed, not modelled; uniformity assumption (a route's alias row does not depend on the source) checked by every H case. Substructure and constructors adopting an existing atom list (copy_atoms=False by design) out of scope. 8 fix commits. No axioms.",
+  ref="7/C06"),
 }
 
 PENDING = {
